@@ -324,8 +324,8 @@ Section StateKVProofs.
           -- perm_mid.
           -- intros a _. unfold emit_pacc. cbn [fst snd add_pre p_info p_pre p_lk map].
              unfold StateKV.pre_kv at 1. cbn [fst snd]. rewrite <- Ep.
-             rewrite <- Permutation_middle. reflexivity.
-        * inversion Hs; subst; clear Hs. rewrite <- Permutation_middle. reflexivity.
+             perm_mid.
+        * inversion Hs; subst; clear Hs. perm_mid.
   Qed.
 
   Lemma phase1_perm kvs : forall ps un ps' un',
@@ -348,5 +348,657 @@ Section StateKVProofs.
         apply (Hd k'); [now right|assumption]. }
       rewrite (IH ps1 un1 ps' un' Hp H3 Hd1). rewrite P1.
       cbn [app]. apply Permutation_sym, Permutation_middle.
+  Qed.
+
+  (* second loop *)
+  Lemma find_remove_perm k un v un' : find_remove k un = Some (v, un') -> Permutation un ((k, v) :: un').
+  Proof.
+    revert v un'. induction un as [|[k' w] t IH]; intros v un'; cbn [find_remove]; [discriminate|].
+    destruct (bytes_eqb k' k) eqn:E.
+    - intros [= -> ->]. apply bytes_eqb_eq in E. subst. reflexivity.
+    - destruct (find_remove k t) as [[v' t']|]; [|discriminate].
+      intros [= -> <-]. rewrite (IH v t' eq_refl). apply perm_swap.
+  Qed.
+
+  Lemma attach_pre_perm s pres : forall lks un lks' un',
+    attach_pre s pres lks un = Some (lks', un') ->
+    Permutation (map (lk_kv s) lks' ++ un') (map (lk_kv s) lks ++ un).
+  Proof.
+    induction pres as [|[h v] t IH]; intros lks un lks' un'; cbn [StateKV.attach_pre].
+    - intros [= -> ->]. reflexivity.
+    - destruct (find_remove (key_svc_hash s (lk_input (h, len32 v))) un) as [[lv un1]|] eqn:Ef.
+      + destruct (dec_ts lv) as [ts|] eqn:Ed; [|discriminate].
+        intros Ha. rewrite (IH _ _ _ _ Ha).
+        apply ts_canon in Ed. subst lv. apply find_remove_perm in Ef. rewrite Ef.
+        cbn [map]. unfold StateKV.lk_kv at 1. cbn [fst snd]. perm_mid.
+      + apply IH.
+  Qed.
+
+  Definition same_shape (x y : N * pacc) : Prop :=
+    fst x = fst y /\ p_info (snd x) = p_info (snd y) /\ p_pre (snd x) = p_pre (snd y).
+
+  Lemma attach_all_perm d : forall un d' un',
+    attach_all d un = Some (d', un') ->
+    Permutation (flat_map emit_pacc d' ++ un') (flat_map emit_pacc d ++ un) /\ Forall2 same_shape d d'.
+  Proof.
+    induction d as [|[s a] t IH]; intros un d' un'; cbn [StateKV.attach_all].
+    - intros [= <- <-]. split; [reflexivity|constructor].
+    - destruct (attach_pre s (p_pre a) (p_lk a) un) as [[lks un1]|] eqn:Ea; [|discriminate].
+      destruct (attach_all t un1) as [[d1 un2]|] eqn:Et; [|discriminate].
+      intros [= <- <-]. destruct (IH _ _ _ Et) as [P1 F1]. apply attach_pre_perm in Ea.
+      split; [|constructor; [repeat split|assumption]].
+      cbn [flat_map]. unfold emit_pacc at 1 3. cbn [fst snd set_lk p_info p_pre p_lk].
+      rewrite <- !app_assoc. apply Permutation_app_head. apply Permutation_app_head.
+      rewrite P1. rewrite !app_assoc. rewrite (Permutation_app_comm (map (lk_kv s) lks)).
+      rewrite (Permutation_app_comm (map (lk_kv s) (p_lk a))). rewrite <- !app_assoc.
+      apply Permutation_app_head. exact Ea.
+  Qed.
+
+  (* export of the finalized state *)
+  Lemma serialize_finalize ps :
+    (forall i, In i idx16 -> ps_comp ps i <> None) ->
+    (forall s a, In (s, a) (ps_delta ps) -> p_info a <> None) ->
+    serialize (finalize ps) = emit ps.
+  Proof.
+    intros Hc Hi. unfold StateKV.serialize, emit. cbn [StateKV.finalize st_comp st_delta]. f_equal.
+    - unfold emit_comps. induction idx16 as [|i l IH]; [reflexivity|].
+      cbn [map flat_map]. destruct (ps_comp ps i) eqn:E; [|exfalso; apply (Hc i); [now left|assumption]].
+      cbn [app]. f_equal. apply IH. intros j Hj. apply Hc. now right.
+    - induction (ps_delta ps) as [|[s a] d IH]; [reflexivity|].
+      cbn [map flat_map fst snd]. rewrite IH by (intros s' a' Hin; apply (Hi s' a'); now right). f_equal.
+      unfold StateKV.svc_kvs, emit_pacc, StateKV.finalize_acc. cbn [fst snd a_info a_storage a_pre a_lk map app].
+      destruct (p_info a) eqn:E; [reflexivity|]. exfalso. apply (Hi s a); [now left|assumption].
+  Qed.
+
+  (* components and service informations that are present among the imported keys are set *)
+  Lemma step_comp_mono k v ps un ps' un' j :
+    step k v ps un = Some (ps', un') -> ps_comp ps j <> None -> ps_comp ps' j <> None.
+  Proof.
+    unfold StateKV.step. intros Hs Hj.
+    destruct (fixed_index k) as [i|].
+    - destruct (dec_comp i v); [|discriminate]. inversion Hs; subst. cbn [ps_comp].
+      destruct (j =? i); [discriminate|assumption].
+    - destruct (info_sid k) as [s|].
+      + destruct (dec_info v); [|discriminate]. inversion Hs; subst. exact Hj.
+      + destruct (bytes_eqb _ _); inversion Hs; subst; exact Hj.
+  Qed.
+
+  Lemma phase1_comp kvs i : forall ps un ps' un',
+    phase1 kvs ps un = Some (ps', un') -> 1 <= i <= 16 ->
+    ps_comp ps i <> None \/ In (key_fixed i) (map fst kvs) -> ps_comp ps' i <> None.
+  Proof.
+    induction kvs as [|[k v] t IH]; intros ps un ps' un' Hp Hi Hor; cbn [StateKV.phase1] in Hp.
+    - inversion Hp; subst. destruct Hor as [?|[]]. assumption.
+    - destruct (step k v ps un) as [[ps1 un1]|] eqn:Es; [|discriminate].
+      apply (IH _ _ _ _ Hp Hi).
+      destruct Hor as [Hn|[Hk|Hin]]; [left; eapply step_comp_mono; eassumption| |now right].
+      left. cbn [fst] in Hk. subst k. unfold StateKV.step in Es. rewrite (fixed_index_key_fixed i Hi) in Es.
+      destruct (dec_comp i v); [|discriminate]. inversion Es; subst. cbn [ps_comp]. now rewrite N.eqb_refl.
+  Qed.
+
+  Definition has_info (s : N) (d : list (N * pacc)) : Prop :=
+    exists a, lookup_acc s d = Some a /\ p_info a <> None.
+
+  Lemma lookup_upd_same s f d :
+    lookup_acc s (upd_acc s f d) = Some (f (match lookup_acc s d with Some a => a | None => empty_pacc end)).
+  Proof.
+    induction d as [|[s' a] d IH]; cbn [StateKV.upd_acc lookup_acc].
+    - now rewrite N.eqb_refl.
+    - destruct (N.eqb_spec s' s) as [->|Hne]; cbn [lookup_acc].
+      + now rewrite N.eqb_refl.
+      + destruct (N.eqb_spec s' s); [contradiction|]. exact IH.
+  Qed.
+
+  Lemma lookup_upd_other s s' f d : s' <> s -> lookup_acc s' (upd_acc s f d) = lookup_acc s' d.
+  Proof.
+    intros Hne. induction d as [|[s0 a] d IH]; cbn [StateKV.upd_acc lookup_acc].
+    - destruct (N.eqb_spec s s'); [congruence|reflexivity].
+    - destruct (N.eqb_spec s0 s) as [->|H0]; cbn [lookup_acc].
+      + destruct (N.eqb_spec s s'); [congruence|reflexivity].
+      + now rewrite IH.
+  Qed.
+
+  Lemma has_info_upd s' s f d :
+    (forall a, p_info a <> None -> p_info (f a) <> None) -> has_info s' d -> has_info s' (upd_acc s f d).
+  Proof.
+    intros Hf [a [Hl Hi]]. destruct (N.eq_dec s' s) as [->|Hne].
+    - exists (f a). rewrite lookup_upd_same, Hl. auto.
+    - exists a. rewrite lookup_upd_other by assumption. auto.
+  Qed.
+
+  Lemma step_info_mono k v ps un ps' un' s :
+    step k v ps un = Some (ps', un') -> has_info s (ps_delta ps) -> has_info s (ps_delta ps').
+  Proof.
+    unfold StateKV.step. intros Hs Hj.
+    destruct (fixed_index k) as [i|].
+    - destruct (dec_comp i v); [|discriminate]. inversion Hs; subst. exact Hj.
+    - destruct (info_sid k) as [s0|].
+      + destruct (dec_info v); [|discriminate]. inversion Hs; subst. cbn [ps_delta].
+        apply has_info_upd; [|assumption]. intros a _. discriminate.
+      + destruct (bytes_eqb _ _); inversion Hs; subst; [|exact Hj]. cbn [ps_delta].
+        apply has_info_upd; [|assumption]. intros a Ha. exact Ha.
+  Qed.
+
+  Lemma phase1_info kvs s : forall ps un ps' un',
+    phase1 kvs ps un = Some (ps', un') -> s < 2 ^ 32 ->
+    has_info s (ps_delta ps) \/ In (key_svc_idx 255 s) (map fst kvs) -> has_info s (ps_delta ps').
+  Proof.
+    induction kvs as [|[k v] t IH]; intros ps un ps' un' Hp Hs Hor; cbn [StateKV.phase1] in Hp.
+    - inversion Hp; subst. destruct Hor as [?|[]]. assumption.
+    - destruct (step k v ps un) as [[ps1 un1]|] eqn:Es; [|discriminate].
+      apply (IH _ _ _ _ Hp Hs).
+      destruct Hor as [Hn|[Hk|Hin]]; [left; eapply step_info_mono; eassumption| |now right].
+      left. cbn [fst] in Hk. subst k. unfold StateKV.step in Es.
+      rewrite fixed_index_info_key, (info_sid_key s Hs) in Es.
+      destruct (dec_info v) as [x|]; [|discriminate]. inversion Es; subst. cbn [ps_delta].
+      exists (set_info x (match lookup_acc s (ps_delta ps) with Some a => a | None => empty_pacc end)).
+      rewrite lookup_upd_same. split; [reflexivity|discriminate].
+  Qed.
+
+  (* the service identifiers of the accounts under construction stay pairwise different *)
+  Lemma upd_acc_keys s f d : exists l, map fst (upd_acc s f d) = map fst d ++ l /\ (l = [] /\ In s (map fst d) \/ l = [s] /\ ~ In s (map fst d)).
+  Proof.
+    induction d as [|[s' a] d IH]; cbn [StateKV.upd_acc map fst].
+    - exists [s]. split; [reflexivity|right; split; [reflexivity|intros []]].
+    - destruct (N.eqb_spec s' s) as [->|Hne]; cbn [map fst].
+      + exists []. rewrite app_nil_r. split; [reflexivity|left; split; [reflexivity|now left]].
+      + destruct IH as [l [E Hl]]. exists l. rewrite E. split; [reflexivity|].
+        destruct Hl as [[-> Hin]|[-> Hin]]; [left; split; [reflexivity|now right]|right; split; [reflexivity|]].
+        intros [?|?]; [congruence|contradiction].
+  Qed.
+
+  Lemma upd_acc_nodup s f d : NoDup (map fst d) -> NoDup (map fst (upd_acc s f d)).
+  Proof.
+    intros Hn. destruct (upd_acc_keys s f d) as [l [E [[-> _]|[-> Hin]]]]; rewrite E.
+    - now rewrite app_nil_r.
+    - apply NoDup_app_intro; [assumption|repeat constructor; intros []|].
+      intros x Hx [<-|[]]. contradiction.
+  Qed.
+
+  Lemma step_nodup k v ps un ps' un' :
+    step k v ps un = Some (ps', un') -> NoDup (map fst (ps_delta ps)) -> NoDup (map fst (ps_delta ps')).
+  Proof.
+    unfold StateKV.step. intros Hs Hn.
+    destruct (fixed_index k) as [i|].
+    - destruct (dec_comp i v); [|discriminate]. inversion Hs; subst. exact Hn.
+    - destruct (info_sid k) as [s0|].
+      + destruct (dec_info v); [|discriminate]. inversion Hs; subst. now apply upd_acc_nodup.
+      + destruct (bytes_eqb _ _); inversion Hs; subst; [now apply upd_acc_nodup|exact Hn].
+  Qed.
+
+  Lemma phase1_nodup kvs : forall ps un ps' un',
+    phase1 kvs ps un = Some (ps', un') -> NoDup (map fst (ps_delta ps)) -> NoDup (map fst (ps_delta ps')).
+  Proof.
+    induction kvs as [|[k v] t IH]; intros ps un ps' un' Hp Hn; cbn [StateKV.phase1] in Hp.
+    - inversion Hp; subst. exact Hn.
+    - destruct (step k v ps un) as [[ps1 un1]|] eqn:Es; [|discriminate].
+      eapply IH; [eassumption|]. eapply step_nodup; eassumption.
+  Qed.
+
+  Lemma lookup_acc_of_in s a d : NoDup (map fst d) -> In (s, a) d -> lookup_acc s d = Some a.
+  Proof.
+    induction d as [|[s' a'] d IH]; cbn [map fst lookup_acc]; intros Hn Hin; [contradiction|].
+    inversion Hn; subst. destruct Hin as [[= -> ->]|Hin].
+    - now rewrite N.eqb_refl.
+    - destruct (N.eqb_spec s' s) as [->|]; [|auto].
+      exfalso. apply H2. apply in_map_iff. exists (s, a). auto.
+  Qed.
+
+  Lemma same_shape_keys d d' : Forall2 same_shape d d' -> map fst d = map fst d'.
+  Proof. induction 1 as [|x y l l' [E _] _ IH]; cbn; [reflexivity|]. now rewrite E, IH. Qed.
+
+  Lemma same_shape_info d d' s a' :
+    Forall2 same_shape d d' -> In (s, a') d' -> exists a, In (s, a) d /\ p_info a = p_info a'.
+  Proof.
+    induction 1 as [|[s0 a0] [s1 a1] l l' [E [Ei _]] _ IH]; cbn [In]; [intros []|].
+    cbn [fst snd] in *. intros [[= -> ->]|Hin].
+    - exists a0. subst. auto.
+    - destruct (IH Hin) as [a [Ha Hi]]. eauto.
+  Qed.
+
+  Lemma finalize_sids ps : map fst (st_delta (finalize ps)) = map fst (ps_delta ps).
+  Proof. cbn [StateKV.finalize st_delta]. rewrite map_map. reflexivity. Qed.
+
+  (* Theorem A *)
+  Theorem import_export_any kvs st raw :
+    NoDup (map fst kvs) ->
+    parse kvs = Some (st, raw) ->
+    (forall i, In i idx16 -> In (key_fixed i) (map fst kvs)) ->
+    (forall s, In s (map fst (st_delta st)) -> s < 2 ^ 32 /\ In (key_svc_idx 255 s) (map fst kvs)) ->
+    Permutation (serialize st ++ raw) kvs.
+  Proof.
+    intros Hn Hp Hfix Hinfo. unfold StateKV.parse in Hp.
+    destruct (phase1 kvs empty_pstate []) as [[ps un]|] eqn:E1; [|discriminate].
+    destruct (attach_all (ps_delta ps) un) as [[d raw']|] eqn:E2; [|discriminate].
+    inversion Hp; subst; clear Hp.
+    pose proof (phase1_perm kvs _ _ _ _ E1 Hn) as P1.
+    rewrite emit_empty in P1. cbn [app] in P1. rewrite app_nil_r in P1.
+    specialize (P1 (fun k _ Hin => Hin)).
+    destruct (attach_all_perm _ _ _ _ E2) as [P2 F2].
+    pose proof (phase1_nodup kvs _ _ _ _ E1 (NoDup_nil _)) as Hnd.
+    rewrite finalize_sids in Hinfo. cbn [ps_delta] in Hinfo.
+    rewrite serialize_finalize; cbn [ps_comp ps_delta].
+    - unfold emit. cbn [ps_comp ps_delta]. rewrite <- app_assoc. rewrite P2. rewrite app_assoc. exact P1.
+    - intros i Hi. apply (phase1_comp kvs i _ _ _ _ E1); [now apply idx16_in|]. right. now apply Hfix.
+    - intros s a' Hin.
+      destruct (same_shape_info _ _ _ _ F2 Hin) as [a [Ha Ei]]. rewrite <- Ei.
+      assert (Hs : In s (map fst d)) by (apply in_map_iff; exists (s, a'); auto).
+      destruct (Hinfo s Hs) as [Hlt Hk].
+      destruct (phase1_info kvs s _ _ _ _ E1 Hlt (or_intror Hk)) as [a0 [Hl Hi0]].
+      rewrite (lookup_acc_of_in s a _ Hnd Ha) in Hl. inversion Hl; subst. exact Hi0.
+  Qed.
+  (* ============================================================================================ *)
+  (* Part B: the export of a well-formed state has pairwise different keys and is imported without
+     error, unless a hash coincidence shows among the inputs of that state. *)
+
+  Hypothesis H_len : forall x, length (H x) = 32%nat.
+
+  Notation H27 := (H27 H).
+  Notation inputs := (inputs (sinfo := sinfo) (tslots := tslots)).
+  Notation values := (values enc_ts (sinfo := sinfo)).
+  Notation probes := (probes H enc_ts (sinfo := sinfo)).
+  Notation wf_acc := (wf_acc enc_ts (sinfo := sinfo)).
+  Notation wf_state := (wf_state enc_ts (comp := comp) (sinfo := sinfo)).
+  Notation coll_free := (coll_free H enc_ts (comp := comp) (sinfo := sinfo)).
+  Notation coincidence := (coincidence H enc_ts (comp := comp) (sinfo := sinfo)).
+
+  Lemma H27_shape x : exists a0 a1 a2 a3 r, H27 x = a0 :: a1 :: a2 :: a3 :: r.
+  Proof.
+    assert (Hl : length (H27 x) = 27%nat).
+    { unfold StateKV.H27. rewrite firstn_length, H_len. reflexivity. }
+    destruct (H27 x) as [|a0 [|a1 [|a2 [|a3 r]]]]; try discriminate. eauto 6.
+  Qed.
+
+  Lemma key_svc_hash_eq s x : exists n0 n1 n2 n3 a0 a1 a2 a3 r,
+    le_enc 4 s = [n0; n1; n2; n3] /\ H27 x = a0 :: a1 :: a2 :: a3 :: r /\
+    key_svc_hash s x = [n0; a0; n1; a1; n2; a2; n3; a3] ++ r.
+  Proof.
+    destruct (le_enc4_shape s) as (n0 & n1 & n2 & n3 & E).
+    destruct (H27_shape x) as (a0 & a1 & a2 & a3 & r & Ea).
+    exists n0, n1, n2, n3, a0, a1, a2, a3, r. unfold StateKV.key_svc_hash. rewrite E, Ea. auto.
+  Qed.
+
+  Lemma key_svc_hash_inj s s' x y :
+    s < 2 ^ 32 -> s' < 2 ^ 32 -> key_svc_hash s x = key_svc_hash s' y -> s = s' /\ H27 x = H27 y.
+  Proof.
+    intros Hs Hs' E.
+    destruct (key_svc_hash_eq s x) as (n0 & n1 & n2 & n3 & a0 & a1 & a2 & a3 & r & En & Ea & Ek).
+    destruct (key_svc_hash_eq s' y) as (m0 & m1 & m2 & m3 & b0 & b1 & b2 & b3 & r' & Em & Eb & Ek').
+    rewrite Ek, Ek' in E. cbn [app] in E. inversion E; subst.
+    split; [apply le_enc4_inj; congruence|congruence].
+  Qed.
+
+  Lemma sid_type3_key s x : s < 2 ^ 32 -> sid_type3 (key_svc_hash s x) = s.
+  Proof.
+    intros Hs.
+    destruct (key_svc_hash_eq s x) as (n0 & n1 & n2 & n3 & a0 & a1 & a2 & a3 & r & En & Ea & Ek).
+    rewrite Ek. unfold sid_type3. cbn [app nth]. rewrite <- En. now apply le_dec_enc4.
+  Qed.
+
+  (* what the exported list consists of *)
+  Definition is_entry (s : N) (a : account) (k v : bytes) : Prop :=
+    exists x, In x (inputs a) /\ k = key_svc_hash s x /\ In v (values a) /\
+      ((exists e, In e (a_lk a) /\ v = enc_ts (snd e)) \/ (exists k0, x = sto_input k0) \/ (exists h0, x = pre_input h0)).
+
+  Lemma in_svc_kvs s a k v :
+    In (k, v) (svc_kvs (s, a)) -> (k, v) = info_kv s (a_info a) \/ is_entry s a k v.
+  Proof.
+    unfold StateKV.svc_kvs. cbn [In]. rewrite !in_app_iff, !in_map_iff.
+    intros [E|[[e [E He]]|[[e [E He]]|[e [E He]]]]]; [left; now symmetry|right..];
+      inversion E; subst; clear E; unfold is_entry, StateKV.inputs, StateKV.values.
+    - exists (sto_input (fst e)). rewrite !in_app_iff, !in_map_iff. repeat split; eauto 7.
+    - exists (pre_input (fst e)). rewrite !in_app_iff, !in_map_iff. repeat split; eauto 8.
+    - exists (lk_input (fst e)). rewrite !in_app_iff, !in_map_iff. repeat split; eauto 8.
+  Qed.
+
+  Lemma in_serialize st k v :
+    In (k, v) (serialize st) ->
+    (exists i, In i idx16 /\ k = key_fixed i /\ v = enc_comp i (st_comp st i)) \/
+    (exists s a, In (s, a) (st_delta st) /\ ((k, v) = info_kv s (a_info a) \/ is_entry s a k v)).
+  Proof.
+    unfold StateKV.serialize. rewrite in_app_iff, in_map_iff, in_flat_map.
+    intros [[i [E Hi]]|[[s a] [Hin Hkv]]].
+    - left. inversion E; subst. eauto.
+    - right. exists s, a. split; [assumption|]. now apply in_svc_kvs.
+  Qed.
+
+  Lemma info_in_serialize st s a : In (s, a) (st_delta st) -> In (info_kv s (a_info a)) (serialize st).
+  Proof.
+    intros Hin. unfold StateKV.serialize. rewrite in_app_iff, in_flat_map. right.
+    exists (s, a). split; [assumption|]. unfold StateKV.svc_kvs. now left.
+  Qed.
+
+  Definition no_coinc (st : state) : Prop :=
+    forall s a, In (s, a) (st_delta st) -> forall x, In x (inputs a) ->
+      reserved_shape (key_svc_hash s x) = false /\
+      forall y, In y (inputs a ++ probes a) -> H27 x = H27 y -> x = y.
+
+  Lemma coll_free_true st : coll_free st = true -> no_coinc st.
+  Proof.
+    unfold StateKV.coll_free, no_coinc. rewrite forallb_forall. intros Hc s a Hin x Hx.
+    specialize (Hc (s, a) Hin). cbn [fst snd] in Hc. unfold StateKV.coll_free_acc in Hc.
+    rewrite forallb_forall in Hc. specialize (Hc x Hx). apply andb_true_iff in Hc. destruct Hc as [Hr Hc].
+    split; [now apply negb_true_iff in Hr|].
+    intros y Hy E. rewrite forallb_forall in Hc. specialize (Hc y Hy).
+    assert (Eb : bytes_eqb (H27 x) (H27 y) = true) by now apply bytes_eqb_eq.
+    rewrite Eb in Hc. cbn in Hc. now apply bytes_eqb_eq.
+  Qed.
+
+  Lemma coll_free_false st : coll_free st = false -> coincidence st.
+  Proof.
+    unfold StateKV.coll_free, StateKV.coincidence. intros Hc.
+    apply forallb_false_ex in Hc. destruct Hc as [[s a] [Hin Hc]]. cbn [fst snd] in Hc.
+    unfold StateKV.coll_free_acc in Hc. apply forallb_false_ex in Hc. destruct Hc as [x [Hx Hc]].
+    exists s, a, x. split; [assumption|split; [assumption|]].
+    apply andb_false_iff in Hc. destruct Hc as [Hc|Hc].
+    - left. now apply negb_false_iff in Hc.
+    - right. apply forallb_false_ex in Hc. destruct Hc as [y [Hy Hc]]. exists y. split; [assumption|].
+      destruct (bytes_eqb (H27 x) (H27 y)) eqn:E1; [|discriminate]. cbn in Hc.
+      split; [|now apply bytes_eqb_eq].
+      intros ->. assert (bytes_eqb y y = true) by now apply bytes_eqb_eq. congruence.
+  Qed.
+
+  Section OneState.
+    Variable st : state.
+    Hypothesis Hwf : wf_state st.
+    Hypothesis Hnc : no_coinc st.
+
+    Lemma wf_sid s a : In (s, a) (st_delta st) -> s < 2 ^ 32.
+    Proof. intros Hin. destruct Hwf as [_ Hf]. rewrite Forall_forall in Hf. apply (Hf (s, a) Hin). Qed.
+
+    Lemma wf_acc_of s a : In (s, a) (st_delta st) -> wf_acc a.
+    Proof. intros Hin. destruct Hwf as [_ Hf]. rewrite Forall_forall in Hf. apply (Hf (s, a) Hin). Qed.
+
+    Lemma same_acc s a a' : In (s, a) (st_delta st) -> In (s, a') (st_delta st) -> a = a'.
+    Proof. destruct Hwf as [Hn _]. now apply NoDup_map_fst_fun. Qed.
+
+    Lemma entry_unreserved s a k v :
+      In (s, a) (st_delta st) -> is_entry s a k v -> fixed_index k = None /\ info_sid k = None.
+    Proof.
+      intros Hin (x & Hx & -> & _). destruct (Hnc s a Hin x Hx) as [Hr _].
+      unfold reserved_shape in Hr. destruct (fixed_index _); [discriminate|]. destruct (info_sid _); [discriminate|]. auto.
+    Qed.
+
+    Lemma classify_unreserved k v :
+      In (k, v) (serialize st) -> fixed_index k = None -> info_sid k = None ->
+      exists s a, In (s, a) (st_delta st) /\ is_entry s a k v.
+    Proof.
+      intros Hin Hf Hi. apply in_serialize in Hin. destruct Hin as [(i & Hi16 & -> & _)|(s & a & Hsa & [E|He])].
+      - rewrite fixed_index_key_fixed in Hf by now apply idx16_in. discriminate.
+      - inversion E; subst. rewrite info_sid_key in Hi by (eapply wf_sid; eassumption). discriminate.
+      - eauto.
+    Qed.
+
+    Lemma entry_sid s a k v : In (s, a) (st_delta st) -> is_entry s a k v -> sid_type3 k = s.
+    Proof. intros Hin (x & _ & -> & _). apply sid_type3_key. eapply wf_sid; eassumption. Qed.
+
+    (* B1: the exported keys are pairwise different *)
+    Lemma svc_keys s a :
+      map fst (svc_kvs (s, a)) = key_svc_idx 255 s :: map (key_svc_hash s) (inputs a).
+    Proof.
+      unfold StateKV.svc_kvs, StateKV.inputs. cbn [map fst StateKV.info_kv]. f_equal.
+      rewrite !map_app, !map_map. reflexivity.
+    Qed.
+
+    Lemma serialize_keys :
+      map fst (serialize st) = map key_fixed idx16 ++ flat_map (fun sa => map fst (svc_kvs sa)) (st_delta st).
+    Proof.
+      unfold StateKV.serialize. rewrite map_app, map_map. f_equal.
+      induction (st_delta st) as [|sa d IH]; [reflexivity|]. cbn [flat_map]. now rewrite map_app, IH.
+    Qed.
+
+    Lemma export_keys_nodup : NoDup (map fst (serialize st)).
+    Proof.
+      rewrite serialize_keys. apply NoDup_app_intro.
+      - apply NoDup_map_inj_in; [exact idx16_nodup|]. intros; now apply key_fixed_inj.
+      - apply NoDup_flat_map_intro.
+        + apply NoDup_map_fst_NoDup. apply Hwf.
+        + intros [s a] Hin. rewrite svc_keys. constructor.
+          * rewrite in_map_iff. intros [x [E Hx]]. destruct (Hnc s a Hin x Hx) as [Hr _].
+            unfold reserved_shape in Hr. rewrite E, fixed_index_info_key, info_sid_key in Hr by (eapply wf_sid; eassumption).
+            discriminate.
+          * apply NoDup_map_inj_in; [apply (wf_acc_of s a Hin)|].
+            intros x y Hx Hy E. apply key_svc_hash_inj in E; try (eapply wf_sid; eassumption).
+            destruct (Hnc s a Hin x Hx) as [_ Hc]. apply Hc; [|tauto]. rewrite in_app_iff. now left.
+        + intros [s a] [s' a'] k Hin Hin' Hne. rewrite !svc_keys. cbn [In]. rewrite !in_map_iff.
+          pose proof (wf_sid s a Hin) as Hs. pose proof (wf_sid s' a' Hin') as Hs'.
+          assert (Hss : s <> s') by (intros ->; apply Hne; f_equal; eapply same_acc; eassumption).
+          intros [E|[x [E Hx]]] [E'|[y [E' Hy]]]; subst k.
+          * apply Hss. now apply key_svc_idx_inj.
+          * destruct (Hnc s' a' Hin' y Hy) as [Hr _]. unfold reserved_shape in Hr.
+            rewrite E', fixed_index_info_key, info_sid_key in Hr by assumption. discriminate.
+          * destruct (Hnc s a Hin x Hx) as [Hr _]. unfold reserved_shape in Hr.
+            rewrite <- E', fixed_index_info_key, info_sid_key in Hr by assumption. discriminate.
+          * apply Hss. symmetry in E'. now apply key_svc_hash_inj in E'.
+      - intros k. rewrite in_map_iff, in_flat_map. intros [i [<- Hi]] [[s a] [Hin Hk]].
+        rewrite svc_keys in Hk. cbn [In] in Hk. rewrite in_map_iff in Hk. destruct Hk as [E|[x [E Hx]]].
+        + pose proof (fixed_index_info_key s) as Hf. rewrite E, fixed_index_key_fixed in Hf by now apply idx16_in.
+          discriminate.
+        + destruct (Hnc s a Hin x Hx) as [Hr _]. unfold reserved_shape in Hr.
+          rewrite E, fixed_index_key_fixed in Hr by now apply idx16_in. discriminate.
+    Qed.
+
+    (* B2: import of the exported entries, in any order, raises no error *)
+    Lemma step_total k v ps un :
+      In (k, v) (serialize st) -> exists ps' un', step k v ps un = Some (ps', un').
+    Proof.
+      intros Hin. unfold StateKV.step.
+      destruct (fixed_index k) as [i|] eqn:Ef.
+      - apply fixed_index_some in Ef. destruct Ef as [-> Hi].
+        apply in_serialize in Hin. destruct Hin as [(j & Hj & E & ->)|(s & a & Hsa & [E|He])].
+        + apply key_fixed_inj in E. subst j. rewrite comp_rt. eauto.
+        + unfold StateKV.info_kv in E. injection E; intros; lia.
+        + destruct (entry_unreserved s a _ v Hsa He) as [Hf _]. rewrite fixed_index_key_fixed in Hf by assumption.
+          discriminate.
+      - destruct (info_sid k) as [s0|] eqn:Ei.
+        + apply in_serialize in Hin. destruct Hin as [(j & Hj & -> & ->)|(s & a & Hsa & [E|He])].
+          * rewrite info_sid_key_fixed in Ei by (apply idx16_in in Hj; lia). discriminate.
+          * inversion E; subst. rewrite info_rt. eauto.
+          * destruct (entry_unreserved s a _ v Hsa He) as [_ Hi]. congruence.
+        + destruct (bytes_eqb _ _); eauto.
+    Qed.
+
+    Definition un_ok (un : list kv) : Prop :=
+      forall k v, In (k, v) un -> In (k, v) (serialize st) /\ fixed_index k = None /\ info_sid k = None.
+
+    Definition pre_ok (s' : N) (pres : list (bytes * bytes)) : Prop :=
+      forall h v, In (h, v) pres -> h = H v /\
+        exists k', In (k', v) (serialize st) /\ sid_type3 k' = s' /\ fixed_index k' = None /\ info_sid k' = None.
+
+    Definition acc_ok (s' : N) (a' : pacc) : Prop :=
+      In (key_svc_idx 255 s') (map fst (serialize st)) /\ s' < 2 ^ 32 /\ pre_ok s' (p_pre a').
+
+    Definition delta_ok (d : list (N * pacc)) : Prop := forall s' a', In (s', a') d -> acc_ok s' a'.
+
+    Lemma upd_acc_ok s f d :
+      delta_ok d -> (forall a, In (s, a) d -> acc_ok s (f a)) -> acc_ok s (f empty_pacc) -> delta_ok (upd_acc s f d).
+    Proof.
+      intros Hd Hf He. induction d as [|[s0 a0] d IH]; cbn [StateKV.upd_acc].
+      - intros s' a' [[= <- <-]|[]]. exact He.
+      - destruct (N.eqb_spec s0 s) as [->|Hne].
+        + intros s' a' [[= <- <-]|Hin]; [apply Hf; now left|apply Hd; now right].
+        + intros s' a' [[= <- <-]|Hin]; [apply Hd; now left|].
+          apply IH; [intros s1 a1 H1; apply Hd; now right|intros a1 H1; apply Hf; now right|assumption].
+    Qed.
+
+    Lemma step_ok k v ps un ps' un' :
+      In (k, v) (serialize st) -> step k v ps un = Some (ps', un') ->
+      un_ok un -> delta_ok (ps_delta ps) -> un_ok un' /\ delta_ok (ps_delta ps').
+    Proof.
+      intros Hin Hs Hu Hd. unfold StateKV.step in Hs.
+      destruct (fixed_index k) as [i|] eqn:Ef.
+      - destruct (dec_comp i v); [|discriminate]. inversion Hs; subst. auto.
+      - destruct (info_sid k) as [s0|] eqn:Ei.
+        + destruct (dec_info v) as [x|]; [|discriminate]. inversion Hs; subst; clear Hs. split; [assumption|].
+          cbn [ps_delta]. apply info_sid_some in Ei. destruct Ei as [-> Hs0].
+          assert (Hk : In (key_svc_idx 255 s0) (map fst (serialize st))).
+          { apply in_map_iff. exists (key_svc_idx 255 s0, v). auto. }
+          apply upd_acc_ok; [assumption| |].
+          * intros a Ha. destruct (Hd s0 a Ha) as (_ & _ & Hp). repeat split; assumption.
+          * repeat split; try assumption. intros h w [].
+        + destruct (bytes_eqb k (key_svc_hash (sid_type3 k) (pre_input (H v)))) eqn:Ep;
+            inversion Hs; subst; clear Hs.
+          * split; [assumption|]. cbn [ps_delta].
+            destruct (classify_unreserved k v Hin Ef Ei) as (s & a & Hsa & He).
+            pose proof (entry_sid s a k v Hsa He) as Es. rewrite Es.
+            assert (Hk : In (key_svc_idx 255 s) (map fst (serialize st))).
+            { apply in_map_iff. exists (info_kv s (a_info a)). split; [reflexivity|now apply info_in_serialize]. }
+            assert (Hnew : forall pres, pre_ok s pres -> pre_ok s ((H v, v) :: pres)).
+            { intros pres Hp h w [[= <- <-]|Hw]; [|now apply Hp]. split; [reflexivity|]. exists k. auto. }
+            apply upd_acc_ok; [assumption| |].
+            -- intros a0 Ha0. destruct (Hd s a0 Ha0) as (_ & Hlt & Hp). repeat split; try assumption.
+               cbn [add_pre p_pre]. now apply Hnew.
+            -- repeat split; [assumption|eapply wf_sid; eassumption|]. cbn [add_pre p_pre empty_pacc StateKV.empty_pacc].
+               apply Hnew. intros h w [].
+          * split; [|assumption]. intros k' v' [[= <- <-]|Hin']; [auto|now apply Hu].
+    Qed.
+
+    Lemma phase1_total kvs : forall ps un,
+      (forall kvp, In kvp kvs -> In kvp (serialize st)) -> un_ok un -> delta_ok (ps_delta ps) ->
+      exists ps' un', phase1 kvs ps un = Some (ps', un') /\ un_ok un' /\ delta_ok (ps_delta ps').
+    Proof.
+      induction kvs as [|[k v] t IH]; intros ps un Hall Hu Hd; cbn [StateKV.phase1].
+      - eauto.
+      - assert (Hin : In (k, v) (serialize st)) by (apply Hall; now left).
+        destruct (step_total k v ps un Hin) as (ps1 & un1 & Es). rewrite Es.
+        destruct (step_ok k v ps un ps1 un1 Hin Es Hu Hd) as [Hu1 Hd1].
+        apply IH; auto. intros kvp Hk. apply Hall. now right.
+    Qed.
+
+    Lemma find_remove_in k un v un' :
+      find_remove k un = Some (v, un') -> In (k, v) un /\ (forall kvp, In kvp un' -> In kvp un).
+    Proof.
+      intros Hf. apply find_remove_perm in Hf. split.
+      - apply (Permutation_in _ (Permutation_sym Hf)). now left.
+      - intros kvp Hin. apply (Permutation_in _ (Permutation_sym Hf)). now right.
+    Qed.
+
+    Lemma le_enc4_prefix n t a b c d t' :
+      le_enc 4 n ++ t = [a; b; c; d] ++ t' -> n < 2 ^ 32 -> n = le_dec [a; b; c; d].
+    Proof.
+      intros E Hn. destruct (le_enc4_shape n) as (n0 & n1 & n2 & n3 & En). rewrite En in E.
+      cbn [app] in E. inversion E; subst. rewrite <- En. symmetry. now apply le_dec_enc4.
+    Qed.
+
+    Lemma len32_wf v : wf_val v -> len32 v = N.of_nat (length v) /\ len32 v < 2 ^ 32 - 2.
+    Proof.
+      unfold StateKV.wf_val, len32. intros Hv. rewrite N.mod_small; [auto|].
+      eapply N.lt_trans; [exact Hv|]. reflexivity.
+    Qed.
+
+    (* the entry found for a probed lookup key decodes *)
+    Lemma probe_decodes s' k' v lk lv :
+      In (k', v) (serialize st) -> fixed_index k' = None -> info_sid k' = None -> sid_type3 k' = s' ->
+      In (lk, lv) (serialize st) -> fixed_index lk = None -> info_sid lk = None ->
+      lk = key_svc_hash s' (lk_input (H v, len32 v)) -> s' < 2 ^ 32 ->
+      exists ts, dec_ts lv = Some ts.
+    Proof.
+      intros Hin' Hf' Hi' Hs' Hin Hf Hi Elk Hlt.
+      destruct (classify_unreserved k' v Hin' Hf' Hi') as (s2 & a2 & Hsa2 & He2).
+      destruct (classify_unreserved lk lv Hin Hf Hi) as (s & a & Hsa & He).
+      pose proof (entry_sid s2 a2 k' v Hsa2 He2) as E2. rewrite Hs' in E2. subst s2.
+      destruct He as (x & Hx & Ek & Hlv & Hkind).
+      rewrite Elk in Ek. apply key_svc_hash_inj in Ek; [|assumption|eapply wf_sid; eassumption].
+      destruct Ek as [<- EH].
+      assert (a2 = a) by (eapply same_acc; eassumption). subst a2.
+      destruct He2 as (_ & _ & _ & Hv & _).
+      destruct Hkind as [[e [_ ->]]|Hkind]; [rewrite ts_rt; eauto|]. exfalso.
+      set (y := lk_input (H v, len32 v)) in *.
+      assert (Hy : In y (inputs a ++ probes a)).
+      { rewrite in_app_iff. right. unfold StateKV.probes. apply in_map_iff. exists v. auto. }
+      destruct (Hnc s' a Hsa x Hx) as [_ Hc]. specialize (Hc y Hy (eq_sym EH)).
+      destruct (wf_acc_of s' a Hsa) as [_ Hvals]. rewrite Forall_forall in Hvals.
+      destruct (len32_wf v (Hvals v Hv)) as [_ Hl].
+      assert (Hl' : len32 v < 2 ^ 32) by (eapply N.lt_trans; [exact Hl|reflexivity]).
+      subst y. unfold lk_input in Hc. cbn [fst snd] in Hc.
+      destruct Hkind as [[k0 ->]|[h0 ->]]; unfold sto_input, pre_input in Hc; symmetry in Hc;
+        apply le_enc4_prefix in Hc; try assumption; rewrite Hc in Hl; vm_compute in Hl; discriminate.
+    Qed.
+
+    Lemma attach_pre_total s' pres : forall lks un,
+      s' < 2 ^ 32 -> pre_ok s' pres -> un_ok un ->
+      exists lks' un', attach_pre s' pres lks un = Some (lks', un') /\ un_ok un'.
+    Proof.
+      induction pres as [|[h v] t IH]; intros lks un Hlt Hp Hu; cbn [StateKV.attach_pre].
+      - eauto.
+      - assert (Hp' : pre_ok s' t) by (intros h' v' Hin; apply Hp; now right).
+        destruct (Hp h v (or_introl eq_refl)) as (-> & k' & Hin' & Hs' & Hf' & Hi').
+        destruct (find_remove (key_svc_hash s' (lk_input (H v, len32 v))) un) as [[lv un1]|] eqn:Ef.
+        + apply find_remove_in in Ef. destruct Ef as [Hin Hsub].
+          destruct (Hu _ _ Hin) as (Hser & Hf & Hi).
+          destruct (probe_decodes s' k' v _ lv Hin' Hf' Hi' Hs' Hser Hf Hi eq_refl Hlt) as [ts ->].
+          apply IH; auto. intros k0 v0 H0. apply Hu. now apply Hsub.
+        + apply IH; auto.
+    Qed.
+
+    Lemma attach_all_total d : forall un,
+      delta_ok d -> un_ok un -> exists d' un', attach_all d un = Some (d', un').
+    Proof.
+      induction d as [|[s' a'] t IH]; intros un Hd Hu; cbn [StateKV.attach_all].
+      - eauto.
+      - destruct (Hd s' a' (or_introl eq_refl)) as (_ & Hlt & Hp).
+        destruct (attach_pre_total s' (p_pre a') (p_lk a') un Hlt Hp Hu) as (lks & un1 & -> & Hu1).
+        destruct (IH un1) as (d' & un2 & ->); [intros s1 a1 H1; apply Hd; now right|assumption|]. eauto.
+    Qed.
+
+    Theorem roundtrip_no_coincidence kvs :
+      Permutation kvs (serialize st) ->
+      exists st' raw, parse kvs = Some (st', raw) /\ Permutation (serialize st' ++ raw) kvs.
+    Proof.
+      intros P.
+      assert (Hall : forall kvp, In kvp kvs -> In kvp (serialize st)) by (intros kvp; apply Permutation_in; assumption).
+      destruct (phase1_total kvs empty_pstate [] Hall) as (ps & un & E1 & Hu & Hd);
+        [intros k v []|intros s a []|].
+      destruct (attach_all_total (ps_delta ps) un Hd Hu) as (d & raw & E2).
+      assert (Hp : parse kvs = Some (finalize {| ps_comp := ps_comp ps; ps_delta := d |}, raw)).
+      { unfold StateKV.parse. now rewrite E1, E2. }
+      eexists _, _. split; [exact Hp|].
+      apply import_export_any; [| exact Hp | |].
+      - apply (Permutation_NoDup (Permutation_map fst (Permutation_sym P))). exact export_keys_nodup.
+      - intros i Hi. apply (Permutation_in _ (Permutation_map fst (Permutation_sym P))).
+        rewrite serialize_keys, in_app_iff. left. now apply in_map.
+      - intros s Hs. rewrite finalize_sids in Hs. cbn [ps_delta] in Hs.
+        destruct (attach_all_perm _ _ _ _ E2) as [_ F2]. rewrite <- (same_shape_keys _ _ F2) in Hs.
+        apply in_map_iff in Hs. destruct Hs as [[s0 a0] [<- Hin]]. cbn [fst].
+        destruct (Hd s0 a0 Hin) as (Hk & Hlt & _). split; [assumption|].
+        apply (Permutation_in _ (Permutation_map fst (Permutation_sym P))). exact Hk.
+    Qed.
+  End OneState.
+
+  (* the property: export, import in any order, export again *)
+  Theorem export_import_roundtrip st kvs :
+    wf_state st -> Permutation kvs (serialize st) ->
+    (exists st' raw, parse kvs = Some (st', raw) /\ Permutation (serialize st' ++ raw) kvs)
+    \/ coincidence st.
+  Proof.
+    intros Hwf P. destruct (coll_free st) eqn:E.
+    - left. apply (roundtrip_no_coincidence st Hwf (coll_free_true st E) kvs P).
+    - right. now apply coll_free_false.
+  Qed.
+
+  (* hence the same state root, for every root function that does not depend on the order (C15) *)
+  Theorem export_import_same_root (R : Type) (root : list kv -> R) st kvs :
+    (forall l l', Permutation l l' -> root l = root l') ->
+    wf_state st -> Permutation kvs (serialize st) ->
+    (exists st' raw, parse kvs = Some (st', raw) /\ root (serialize st' ++ raw) = root (serialize st))
+    \/ coincidence st.
+  Proof.
+    intros Hroot Hwf P. destruct (export_import_roundtrip st kvs Hwf P) as [(st' & raw & Hp & P')|Hc]; [left|now right].
+    exists st', raw. split; [assumption|]. apply Hroot. now rewrite P'.
+  Qed.
+
+  (* the result of the import does not depend on the order of the key-values, up to permutation of
+     what it stands for *)
+  Theorem import_order_independent st kvs kvs' :
+    wf_state st -> Permutation kvs (serialize st) -> Permutation kvs' kvs ->
+    (exists st1 raw1 st2 raw2, parse kvs = Some (st1, raw1) /\ parse kvs' = Some (st2, raw2) /\
+       Permutation (serialize st1 ++ raw1) (serialize st2 ++ raw2))
+    \/ coincidence st.
+  Proof.
+    intros Hwf P P'.
+    destruct (export_import_roundtrip st kvs Hwf P) as [(st1 & raw1 & Hp1 & P1)|Hc]; [|now right].
+    destruct (export_import_roundtrip st kvs' Hwf (perm_trans P' P)) as [(st2 & raw2 & Hp2 & P2)|Hc]; [|now right].
+    left. exists st1, raw1, st2, raw2. repeat split; try assumption.
+    rewrite P1, P2. now symmetry.
   Qed.
 End StateKVProofs.
